@@ -138,6 +138,8 @@ func (s *PagedSlice[T]) Del(index int) {
 
 	lastIndex := s.len - 1
 	s.pages[index/s.pageSize][index%s.pageSize] = s.pages[lastIndex/s.pageSize][lastIndex%s.pageSize]
+	var zero T
+	s.pages[lastIndex/s.pageSize][lastIndex%s.pageSize] = zero
 
 	s.len--
 	if s.len%s.pageSize == 0 && len(s.pages) > 1 {
